@@ -37,11 +37,22 @@ structure TA where
   firstSeen : Nat
 deriving DecidableEq, Repr, Inhabited
 
+/-- content of one file: `absent` (NotExist), `empty` (exists, zero length: the
+gob decoder returns `io.EOF`), `corrupt` (bytes that do not decode: garbage or a
+truncated stream, `io.ErrUnexpectedEOF` etc.), or `ok v`. -/
 inductive FileC (α : Type) where
   | absent
+  | empty
   | corrupt
   | ok (v : α)
 deriving DecidableEq, Repr
+
+/-- the file exists and its bytes do not decode (for `readTombstones`: every
+`gob` error, `io.EOF` of a zero-length file included, is `errCorruptTombstones`). -/
+def FileC.undecodable {α : Type} : FileC α → Bool
+  | .empty => true
+  | .corrupt => true
+  | _ => false
 
 /-- the two files under `cfg.Directory`. Tombstones are kept by material. -/
 structure Disk where
@@ -262,6 +273,7 @@ def readTomb (d : Disk) (fl : Faults) : TombRead :=
   if fl.tombRead then .corrupt else
   match d.tomb with
   | .absent => .ok []
+  | .empty => .corrupt
   | .corrupt => .corrupt
   | .ok ms => .ok ms
 
@@ -330,7 +342,10 @@ structure Sys where
   now : Nat := 0
 deriving DecidableEq, Repr
 
-inductive Damage | tomb | state
+/-- damage to a file between runs: garbage / truncated stream (`tomb`, `state`)
+or truncation to zero length (`tombEmpty`, `stateEmpty`: post-crash or
+full-disk artefact). -/
+inductive Damage | tomb | state | tombEmpty | stateEmpty
 deriving DecidableEq, Repr
 
 inductive Ev where
@@ -353,6 +368,8 @@ def step (P : Params) (cfg : List Key) (s : Sys) : Ev → Sys
   | .restart => { s with proc := none }
   | .damage .tomb => { s with disk := { s.disk with tomb := .corrupt } }
   | .damage .state => { s with disk := { s.disk with state := .corrupt } }
+  | .damage .tombEmpty => { s with disk := { s.disk with tomb := .empty } }
+  | .damage .stateEmpty => { s with disk := { s.disk with state := .empty } }
   | .run f fl crash =>
     let r := runResult P cfg s f fl
     match crash with
